@@ -107,13 +107,16 @@ def single_edit_is_reported_as_such(k, edit):
             [id(s) for s in r["changed_parameters_of_service"][0]] == [id(s) for s in expect["changed"]])
 
 
-ATTRS = ["none", "short_name", "byte_position", "bit_length", "semantic", "coded_value", "data_type"]
+ATTRS = ["none", "short_name", "byte_position", "bit_length", "semantic", "coded_value", "data_type",
+         "linked_dop_bit_length", "linked_dop_name", "linked_dop_physical_type", "default_value"]
 
 
 @harness(props=["C18"], strength="E", family=lambda t, s: [{"attr": a} for a in ATTRS],
          functions=[Comparison.compare_parameters], covers=["done"])
 def parameter_comparison(attr):
     """compare_parameters lists exactly the attributes on which the two parameters differ"""
+    if attr in ("linked_dop_bit_length", "linked_dop_name", "linked_dop_physical_type", "default_value"):
+        return _dop_parameter_comparison(attr)
     p1 = coded_const("p", 5, 1, 8, "DATA")
     kw = {"name": "p", "value": 5, "byte_position": 1, "bits": 8, "semantic": "DATA", "dt": DataType.A_UINT32}
     expected = []
@@ -178,3 +181,27 @@ def layer_overview_counts(nsvc, ndop, ncp):
         row = rows[0][0]
         H.check("C18:overview-reports-the-actual-counts",
                 list(row) == ["layer", "BASE-VARIANT", str(nsvc), str(ndop), str(ncp)])
+
+
+def _dop_parameter_comparison(attr):
+    from contracts import build as B
+    d1 = B.dop("d", 8)
+    p1 = B.value_param("p", d1, 1, default="3")
+    # the second parameter has identical fields (same DOP-REF!) - only the resolved DOP object differs
+    if attr == "linked_dop_bit_length":
+        d2 = B.dop("d", 16)
+        expected = ["Bit Length", "Linked DOP object"]
+    elif attr == "linked_dop_name":
+        d2 = B.dop("d", 8)
+        d2.short_name = "other"
+        expected = ["Linked DOP object", " DOP name"]
+    elif attr == "linked_dop_physical_type":
+        d2 = B.dop("d", 8, phys_dt=DataType.A_INT32)
+        expected = ["Linked DOP object", " DOP physical data type"]
+    else:
+        d2 = d1
+        expected = ["Default value"]
+    p2 = B.value_param("p", d2, 1, default="4" if attr == "default_value" else "3")
+    r = Comparison().compare_parameters(p1, p2)
+    H.cover("done")
+    H.check("C18:exactly-the-differing-attributes-are-listed", r["Property"] == expected)
